@@ -590,6 +590,9 @@ def body(chk, db, cfgname):
                     r7.bad(site, f.loc(j), "%s of the part/element is set from this->%s: the tolerance the user configured is ignored and a value meant for another purpose (e.g. 1e-16 instead of 1e-8) decides the resonance branch" % (lname, rname), cfgname)
             else:
                 r7.unknown(site, f.loc(j), "tolerance assigned from %s" % f.s(n["r"])[:60], cfgname)
+    r_idem = chk.rule("C02-R8", "prepare()/compute() are idempotent: the early-return level is the level the function establishes", "F1 pairing", 2)
+    from checks.lehmann import check_status_guards
+    check_status_guards(r_idem, db, cfgname, ("Pomerol::TwoParticleGF",))
     chk.undecided.append("equality with the triple Fourier integral of <T c c c+ c+>; the resonance decision for numerically near-degenerate levels (runtime comparison with ReduceResonanceTolerance)")
 
 
